@@ -60,8 +60,11 @@ def gen_project(seed: int) -> T.Dict[str, str]:
         kind = r.choice(['static_library', 'shared_library', 'library', 'both_libraries'])
         files[f'lib{i}.c'] = f'#include "gen.h"\nint lib{i}(void){{return {i};}}\n'
         args = r.sample(['-DA=1', '-DB=2', '-DC=3', '-DD=4', '-DE=5'], r.randint(0, 4))
+        # versioned shared libraries get alias symlinks in the build directory (created at configure time: state that a
+        # reconfigure finds already there)
+        ver = f", version: '{i}.2.{r.randint(0, 9)}', soversion: '{i}'" if kind != 'static_library' and r.random() < 0.6 else ''
         L.append(f"lib{i} = {kind}('l{i}', 'lib{i}.c', gen_h, include_directories: inc, link_with: [{', '.join(deps)}], "
-                 f"c_args: {args!r}, install: {str(r.random() < 0.6).lower()})")
+                 f"c_args: {args!r}, install: {str(r.random() < 0.6).lower()}{ver})")
         libs.append(f'lib{i}')
         if r.random() < 0.6:
             # several version constraints on the same required package, private requirements, several variables
@@ -71,6 +74,13 @@ def gen_project(seed: int) -> T.Dict[str, str]:
                      f"variables: {{'k{i}': 'v', 'a{i}': 'b', 'z{i}': 'c'}}, uninstalled_variables: {{'u': '1', 'b': '2'}}, "
                      f"extra_cflags: ['-DX{i}', '-DY{i}'], subdirs: ['s{i}', 'a{i}'])")
     # found external dependencies kept in variables: cached in coredata and re-used by reconfigure
+    # raw -L/-l link arguments: the backend guesses which file -lshadow is (several directories provide one) to make the
+    # link step depend on it
+    ldirs = ['lib1', 'lib2', 'lib3', 'lib4']
+    r.shuffle(ldirs)
+    L.append("rawdep = declare_dependency(link_args: [%s, '-lshadow', '-lonlyone', '-lm'])"
+             % ', '.join(f"'-L' + meson.current_source_dir() / 'sdkA/{d}'" for d in ldirs))
+    L.append("executable('userawdep', 'usefoo.c', dependencies: rawdep)")
     L.append("thr = dependency('threads')")
     L.append("thr2 = thr")
     L.append("dl = dependency('dl', required: false)")
